@@ -45,14 +45,16 @@ Ltac bools :=
 
 Definition all_dead (l : list proc) : Prop := forall p, In p l -> p_alive p = false.
 
-Definition ph_tab_ok (ph : phase) (tab : list proc) (pver : nat) : Prop :=
+(* early = pol_early of the machine: only when finishChan is sent after cmd.Wait() (early = false) does "goroutine 3
+   has left" imply "the process is gone" *)
+Definition ph_tab_ok (early : bool) (ph : phase) (tab : list proc) (pver : nat) : Prop :=
   match ph with
   | PRun w _ _ =>
-      exists p t, tab = p :: t /\ all_dead t /\ p_ver p = pver /\ (w = WDone -> p_alive p = false)
+      exists p t, tab = p :: t /\ all_dead t /\ p_ver p = pver /\ (early = false -> w = WDone -> p_alive p = false)
   | PIdle => all_dead tab /\ match tab with p :: _ => p_ver p = pver | [] => True end
   | _ => all_dead tab
   end.
-Definition tab_ok (s : state) : Prop := ph_tab_ok (s_ph s) (s_tab s) (s_pver s).
+Definition tab_ok (pol : policy) (s : state) : Prop := ph_tab_ok (pol_early pol) (s_ph s) (s_tab s) (s_pver s).
 
 Lemma all_dead_nil : all_dead []. Proof. intros p []. Qed.
 Lemma all_dead_cons p t : p_alive p = false -> all_dead t -> all_dead (p :: t).
@@ -60,12 +62,12 @@ Proof. intros Hp Ht q [<-|Hq]; auto. Qed.
 Lemma all_dead_inv p t : all_dead (p :: t) -> p_alive p = false /\ all_dead t.
 Proof. intro H; split; [apply H; left; reflexivity|intros q Hq; apply H; right; exact Hq]. Qed.
 
-Lemma cancel_tab_ok ph tab pver : ph_tab_ok ph tab pver -> ph_tab_ok (cancel_ph ph) tab pver.
+Lemma cancel_tab_ok e ph tab pver : ph_tab_ok e ph tab pver -> ph_tab_ok e (cancel_ph ph) tab pver.
 Proof.
   destruct ph as [| |[] rd d|]; cbn; auto.
   intros (p & t & -> & Ht & Hv & Hd). exists p, t. repeat split; auto. destruct rd; discriminate.
 Qed.
-Lemma killnow_tab_ok ph tab pver : ph_tab_ok ph tab pver -> ph_tab_ok (killnow_ph ph) tab pver.
+Lemma killnow_tab_ok e ph tab pver : ph_tab_ok e ph tab pver -> ph_tab_ok e (killnow_ph ph) tab pver.
 Proof.
   destruct ph as [| |[] rd d|]; cbn; auto.
   intros (p & t & -> & Ht & Hv & Hd). exists p, t. repeat split; auto. discriminate.
@@ -75,23 +77,23 @@ Ltac open_step' H :=
   unfold step in H; brk H; injection H as <-;
   unfold refresh, set_ui, set_ph, set_tab_ph_disp; cbn.
 
-Lemma tab_ok_step pol l s s' : tab_ok s -> step pol l s = Some s' -> tab_ok s'.
+Lemma tab_ok_step pol l s s' : tab_ok pol s -> step pol l s = Some s' -> tab_ok pol s'.
 Proof.
   unfold tab_ok. destruct s as [ui tm vis ver seen pend box quit pver ph disp sv sh rn evq en tab gen cl].
   intros I H. cbn in I. destruct l; open_step' H; split_ifs; subst; cbn in *;
     try exact I; try (apply cancel_tab_ok; exact I); try (apply killnow_tab_ok; exact I).
   all: try (destruct I as (p & t & -> & Ht & Hv & Hd); cbn in * ).
   all: try solve [destruct I; auto].
-  all: try solve [exists (mkP pver r true []), tab; repeat split; auto; discriminate].
+  all: try solve [exists (mkP pver r true true []), tab; repeat split; auto; discriminate].
   all: try solve [split; [apply all_dead_cons; auto|exact Hv]].
   all: try solve [eexists _, t; repeat split; eauto; try discriminate; cbn; auto].
 Qed.
 
-Lemma tab_ok_init t u : tab_ok (init t u).
+Lemma tab_ok_init pol t u : tab_ok pol (init t u).
 Proof. cbn. split; [apply all_dead_nil|exact I]. Qed.
 
-Lemma tab_ok_run pol sched t u : tab_ok (run pol sched (init t u)).
-Proof. apply run_invariant with (P := tab_ok); [intros; eapply tab_ok_step; eauto|apply tab_ok_init]. Qed.
+Lemma tab_ok_run pol sched t u : tab_ok pol (run pol sched (init t u)).
+Proof. apply run_invariant with (P := tab_ok pol); [intros; eapply tab_ok_step; eauto|apply tab_ok_init]. Qed.
 
 Lemma filter_all_dead l : all_dead l -> filter p_alive l = [].
 Proof.
@@ -99,7 +101,7 @@ Proof.
   apply all_dead_inv in H as [Hp Hl]. rewrite Hp. auto.
 Qed.
 
-Lemma tab_ok_alive s : tab_ok s ->
+Lemma tab_ok_alive pol s : tab_ok pol s ->
   alive_procs s = [] \/ exists p t, s_tab s = p :: t /\ alive_procs s = [p] /\ is_run (s_ph s) = true.
 Proof.
   unfold tab_ok, ph_tab_ok, alive_procs. destruct (s_ph s) as [| |w rd d|] eqn:E; intro H.
@@ -250,13 +252,28 @@ Definition published (disp : option (nat * list str)) (sv : nat) (sh : list str)
 Definition disp_ok (s : state) : Prop :=
   s_visible s = true -> s_box s = None ->
   match s_ph s with
-  | PRun _ true false => published (s_disp s) (s_shown_ver s) (s_shown s) = (s_pver s, hd_out (s_tab s))
-  | PRun _ false false => hd_out (s_tab s) = []
+  | PRun _ rd d =>
+      if hd_open (s_tab s) then
+        match rd, d with
+        | true, false => published (s_disp s) (s_shown_ver s) (s_shown s) = (s_pver s, hd_out (s_tab s))
+        | false, false => hd_out (s_tab s) = []
+        | _, _ => True
+        end
+      else (* the output has ended: goroutine 2 has published all of it *)
+        published (s_disp s) (s_shown_ver s) (s_shown s) = (s_pver s, hd_out (s_tab s))
   | PIdle => s_tab s <> [] -> published (s_disp s) (s_shown_ver s) (s_shown s) = (s_pver s, hd_out (s_tab s))
   | _ => True
   end.
 
 Lemma hd_out_kill tab : hd_out (upd_hd tab kill_p) = hd_out tab.
+Proof. destruct tab; reflexivity. Qed.
+Lemma hd_open_kill tab : hd_open (upd_hd tab kill_p) = hd_open tab.
+Proof. destruct tab; reflexivity. Qed.
+Lemma hd_out_close tab : hd_out (upd_hd tab close_p) = hd_out tab.
+Proof. destruct tab; reflexivity. Qed.
+Lemma hd_open_close tab : hd_alive tab = true -> hd_open (upd_hd tab close_p) = false.
+Proof. destruct tab; [discriminate|reflexivity]. Qed.
+Lemma hd_open_out tab l : hd_open (upd_hd tab (out_p l)) = hd_open tab.
 Proof. destruct tab; reflexivity. Qed.
 
 Lemma disp_ok_step pol l s s' : disp_ok s -> step pol l s = Some s' -> disp_ok s'.
@@ -264,13 +281,21 @@ Proof.
   unfold disp_ok.
   destruct s as [ui tm vis ver seen pend box quit pver ph disp sv sh rn evq en tab gen cl].
   intros I H. cbn in I.
-  destruct l; open_step H; split_ifs; subst; cbn in *; rewrite ?hd_out_kill;
+  destruct l; open_step H; split_ifs; subst; cbn in *; rewrite ?hd_out_kill, ?hd_open_kill;
     try exact I; try (intros; discriminate); try (intros; exact I0).
   all: try solve [intros Hv Hb; specialize (I Hv Hb); destruct ph as [| |[] [] []|]; cbn in *; auto].
   all: try solve [intros Hv Hb; try discriminate; specialize (I Hv Hb); cbn in *; auto;
                   destruct rendered, dirty; cbn in *; auto].
   all: try solve [intros; reflexivity].
   all: try solve [intros Hv Hb; specialize (I Hv Hb); destruct rendered; cbn in *; auto].
+  all: try solve [intros Hv Hb; specialize (I Hv Hb); rewrite ?hd_out_close, ?hd_out_kill; bools;
+                  repeat match goal with
+                  | E : context[hd_open (upd_hd _ kill_p)] |- _ => rewrite hd_open_kill in E
+                  | E : context[hd_open (upd_hd _ (out_p _))] |- _ => rewrite hd_open_out in E
+                  end;
+                  repeat match goal with E : hd_open ?t = _ |- _ => rewrite E in *; clear E end;
+                  cbn in *; auto; try discriminate; try congruence;
+                  try (destruct rendered; cbn in *; auto); try (destruct dirty; cbn in *; auto)].
 Qed.
 
 Lemma disp_ok_run pol sched t u : disp_ok (run pol sched (init t u)).
@@ -282,7 +307,7 @@ Qed.
 (* ------------------------------------------------------------------ all invariants together *)
 
 Record inv (pol : policy) (s : state) : Prop := mkInv {
-  i_tab : tab_ok s; i_ver : ver_ok s; i_life : life_ok pol s; i_sync : sync_ok s; i_disp : disp_ok s }.
+  i_tab : tab_ok pol s; i_ver : ver_ok s; i_life : life_ok pol s; i_sync : sync_ok s; i_disp : disp_ok s }.
 
 Lemma inv_run pol sched t u : inv pol (run pol sched (init t u)).
 Proof.
@@ -291,9 +316,10 @@ Qed.
 
 (* ------------------------------------------------------------------ shape of stable / quiescent states *)
 
-Lemma quiescent_shape pol s : life_ok pol s -> tab_ok s -> quiescent pol s = true ->
+Lemma quiescent_shape pol s : life_ok pol s -> tab_ok pol s -> quiescent pol s = true ->
   s_pending s = false /\ s_box s = None /\ s_disp s = None /\ s_running s = true /\
-  (s_ph s = PIdle \/ exists rd, s_ph s = PRun WListen rd false /\ hd_alive (s_tab s) = true).
+  (s_ph s = PIdle \/ exists w rd d, s_ph s = PRun w rd d /\ hd_alive (s_tab s) = true /\
+                                   (hd_open (s_tab s) = true -> d = false)).
 Proof.
   destruct s as [ui tm vis ver seen pend box quit pver ph disp sv sh rn evq en tab gen cl].
   unfold quiescent, box_empty, life_ok, tab_ok; cbn. intros (L1 & L2 & _) T Q.
@@ -308,9 +334,8 @@ Proof.
   - discriminate.
   - right. destruct T as (p & t & -> & _ & _ & Hd). cbn in *.
     destruct (p_alive p) eqn:Ea; [|cbn in Q; discriminate]. cbn in Q.
-    destruct w, d; cbn in Q; try discriminate.
-    + exists rd; auto.
-    + specialize (Hd eq_refl). discriminate.
+    exists w, rd, d. repeat split; auto. intro Ho. rewrite Ho in Q.
+    destruct w, d; cbn in Q; try discriminate; reflexivity.
   - left. exfalso. specialize (L2 eq_refl). discriminate.
 Qed.
 
@@ -319,7 +344,7 @@ Qed.
 Theorem at_most_one_alive_proof : forall pol sched t u,
   (length (alive_procs (run pol sched (init t u))) <= 1)%nat.
 Proof.
-  intros. destruct (tab_ok_alive _ (tab_ok_run pol sched t u)) as [->|(p & tl & _ & -> & _)]; cbn; lia.
+  intros. destruct (tab_ok_alive _ _ (tab_ok_run pol sched t u)) as [->|(p & tl & _ & -> & _)]; cbn; lia.
 Qed.
 
 Lemma latest_wins_state pol s : inv pol s ->
@@ -338,7 +363,7 @@ Proof.
   assert (Hui : {| u_focus := u_focus (s_ui s); u_query := u_query (s_ui s); u_sel := u_sel (s_ui s) |} = s_ui s)
     by (destruct (s_ui s); reflexivity).
   rewrite Hui in Hr2.
-  destruct Hph as [Hph|(rd & Hph & Hal)]; rewrite Hph in *.
+  destruct Hph as [Hph|(w & rd & d & Hph & Hal & Hod)]; rewrite Hph in *.
   - destruct (s_tab s) as [|p rest] eqn:Et; [discriminate|]. injection Hr1 as <-.
     exists p, rest. repeat split; auto.
     + assert (Hne : p :: rest <> []) by discriminate. specialize (Dp Hne). rewrite Hd in Dp. cbn in Dp. congruence.
@@ -346,8 +371,11 @@ Proof.
       destruct T as [_ T]. congruence.
   - destruct T as (p & rest & Et & _ & Tv & _). rewrite Et in *. injection Hr1 as <-.
     exists p, rest. split; [reflexivity|split; [exact Hr2|]]. cbn in Hal.
-    intros [Hne|Hdead]; [|congruence].
-    destruct rd; cbn in Dp; [rewrite Hd in Dp; cbn in Dp; split; congruence|contradiction].
+    intros [Hne|Hdead]; [|congruence]. cbn in Dp, Hod.
+    destruct (p_open p) eqn:Eo.
+    + rewrite (Hod eq_refl) in Dp.
+      destruct rd; cbn in Dp; [rewrite Hd in Dp; cbn in Dp; split; congruence|contradiction].
+    + rewrite Hd in Dp; cbn in Dp; split; congruence.
 Qed.
 
 Theorem latest_wins_proof : forall pol sched t u,
@@ -365,7 +393,7 @@ Theorem superseded_get_cancel_proof : forall pol sched t u,
 Proof.
   intros pol sched t u s Q Hv Hc p Hin.
   destruct (latest_wins_state pol s (inv_run pol sched t u) Q Hv Hc) as (p0 & rest & Et & He & _).
-  destruct (tab_ok_alive s (tab_ok_run pol sched t u)) as [E|(p1 & tl & Et1 & E & _)]; fold s in E; rewrite E in Hin.
+  destruct (tab_ok_alive pol s (tab_ok_run pol sched t u)) as [E|(p1 & tl & Et1 & E & _)]; fold s in E; rewrite E in Hin.
   - destruct Hin.
   - fold s in Et1. destruct Hin as [<-|[]]. congruence.
 Qed.
@@ -373,11 +401,11 @@ Qed.
 (* with the mailbox poll of b3cab5f a stable state of a live session has an empty mailbox: the preview cannot get
    stuck behind a superseded command (fairness: poll / timer / previewer labels that are enabled eventually fire,
    so a session left alone reaches a stable state or keeps receiving output of one never-ending command) *)
-Lemma stable_quiescent_state pol s : life_ok pol s -> tab_ok s -> pol_poll pol = true ->
+Lemma stable_quiescent_state pol s : life_ok pol s -> tab_ok pol s -> pol_poll pol = true -> pol_early pol = false ->
   stable pol s = true -> s_running s = true -> quiescent pol s = true.
 Proof.
   destruct s as [ui tm vis ver seen pend box quit pver ph disp sv sh rn evq en tab gen cl].
-  unfold quiescent, box_empty, life_ok, tab_ok; cbn. intros (L1 & L2 & _) T Hpoll Q Hr.
+  unfold quiescent, box_empty, life_ok, tab_ok; cbn. intros (L1 & L2 & _) T Hpoll Hearly Q Hr.
   subst rn. destruct (L1 eq_refl) as (-> & -> & ->). rewrite Q. cbn.
   destruct box as [r|]; [exfalso|reflexivity].
   unfold stable, internal_labels, enabled, step in Q; cbn in Q. rewrite Hpoll in Q.
@@ -386,12 +414,12 @@ Proof.
   destruct ph as [| |w rd d|]; cbn in *; try discriminate Q.
   - destruct T as (p & t & -> & _ & _ & Hd). cbn in *.
     destruct (p_alive p) eqn:Ea; [|cbn in Q; discriminate Q]. cbn in Q.
-    destruct w, d; cbn in Q; try discriminate Q.
-    specialize (Hd eq_refl). discriminate Hd.
+    destruct w, d, (p_open p); cbn in Q; try discriminate Q.
+    all: specialize (Hd Hearly eq_refl); discriminate Hd.
   - specialize (L2 eq_refl). discriminate L2.
 Qed.
 
-Theorem stable_is_quiescent_proof : forall pol sched t u, pol_poll pol = true ->
+Theorem stable_is_quiescent_proof : forall pol sched t u, pol_poll pol = true -> pol_early pol = false ->
   let s := run pol sched (init t u) in
   stable pol s = true -> s_running s = true -> quiescent pol s = true.
 Proof.
@@ -407,6 +435,23 @@ Proof.
   specialize (L4 Hp (L3 He)).
   pose proof (tab_ok_run pol sched t u) as T. fold s in T. unfold tab_ok in T. rewrite L4 in T. cbn in T.
   unfold alive_procs. apply filter_all_dead. exact T.
+Qed.
+
+(* for as long as a preview command lives, goroutine 3 is there to kill it (listening, in its grace period or about
+   to kill), whether or not the command's output has ended: finishChan is sent only after cmd.Wait() *)
+Theorem alive_has_canceller_proof : forall pol sched t u, pol_early pol = false ->
+  let s := run pol sched (init t u) in
+  forall p, In p (alive_procs s) -> exists w rd d, s_ph s = PRun w rd d /\ w <> WDone.
+Proof.
+  intros pol sched t u He s p Hin.
+  pose proof (tab_ok_run pol sched t u) as T. fold s in T. unfold tab_ok, ph_tab_ok, alive_procs in *.
+  destruct (s_ph s) as [| |w rd d|] eqn:E.
+  - destruct T as [T _]. rewrite (filter_all_dead _ T) in Hin. destruct Hin.
+  - rewrite (filter_all_dead _ T) in Hin. destruct Hin.
+  - destruct T as (p0 & t0 & Et & Ht & _ & Hd). rewrite Et in Hin. cbn in Hin.
+    rewrite (filter_all_dead _ Ht) in Hin. exists w, rd, d. split; [reflexivity|].
+    intros ->. rewrite (Hd He eq_refl) in Hin. destruct Hin.
+  - rewrite (filter_all_dead _ T) in Hin. destruct Hin.
 Qed.
 
 (* a result tagged with an older version never replaces a newer one *)
